@@ -7,6 +7,7 @@ import (
 	"net/http"
 	"os"
 	"os/exec"
+	"path/filepath"
 	"strings"
 	"sync"
 	"testing"
@@ -240,26 +241,39 @@ func TestVerifC40RegressRecordHookRace(t *testing.T) {
 	}
 	_, off := c40RaceLog(0)
 	before := c40RaceErrors()
-	pm := vcNewPM(confA, vcPMOpts{})
-	var wg sync.WaitGroup
-	wg.Add(1)
-	go func() {
-		defer wg.Done()
-		time.Sleep(2 * time.Second)
-		pm.pathManager.ReloadPathConfs(confB) // hot reload: path.doReloadConf writes pa.conf
-	}()
-	pub, err := vcAttachPub(pm.pathManager, "p", "pub")
-	if err != nil {
-		t.Fatalf("harness: %v", err)
+	for _, pause := range []time.Duration{150 * time.Millisecond, 600 * time.Millisecond, 2 * time.Second} {
+		pm := vcNewPM(confA, vcPMOpts{})
+		var wg sync.WaitGroup
+		wg.Add(1)
+		go func() {
+			defer wg.Done()
+			time.Sleep(pause)
+			pm.pathManager.ReloadPathConfs(confB) // hot reload: path.doReloadConf writes pa.conf
+		}()
+		pub, err2 := vcAttachPub(pm.pathManager, "p", "pub")
+		if err2 != nil {
+			t.Fatalf("harness: %v", err2)
+		}
+		for i := 0; i < 40; i++ { // 800 ms of audio: the first part closes, the segment file is created, OnSegmentCreate runs
+			pub.Write("x")
+		}
+		wg.Wait()
+		pm.Barrier()
+		time.Sleep(100 * time.Millisecond)
+		pub.Detach()
+		pm.Close()
+		nfiles := 0
+		filepath.Walk(dir, func(_ string, fi os.FileInfo, _ error) error { //nolint:errcheck
+			if fi != nil && !fi.IsDir() {
+				nfiles++
+			}
+			return nil
+		})
+		t.Logf("pause %v: segment files so far: %d, races so far: %d", pause, nfiles, c40RaceErrors()-before)
+		if c40RaceErrors() != before {
+			break
+		}
 	}
-	for i := 0; i < 40; i++ { // 800 ms of audio: the first part closes, the segment file is created, OnSegmentCreate runs
-		pub.Write("x")
-	}
-	wg.Wait()
-	pm.Barrier()
-	time.Sleep(100 * time.Millisecond)
-	pub.Detach()
-	pm.Close()
 	if n := c40RaceErrors(); n != before {
 		txt, _ := c40RaceLog(off)
 		if txt == "" {
